@@ -48,7 +48,7 @@ def run(ck):
                  "change is lost when an on_output event raises a non-fatal error", 'M1', 1)
     R7 = ck.rule('R10.7', "idle => consistent: a block taken out of the work-list is evaluated in the "
                  "same iteration (a scheduled evaluation is never dropped), and every evaluation "
-                 "follows a removal", 'M0', 3)
+                 "follows a removal", 'M0', 2)
 
     with ck.section('R10.6'):
         from rules.shared import enqueue_before_anything_can_fail
